@@ -25,7 +25,7 @@ KNOWN_DEFECTS = {
     # construction throws (k == 1; for the initializer_list form k == n + 1 because the n copies of the
     # list itself come first).  The same failure point inside joint_ptr creation stays covered (there the
     # whole block is released).
-    "D1_joint_array_first_element_no_unwind": True,
+    "D1_joint_array_first_element_no_unwind": False,   # fixed in /repo (F21)
     # clone_joint allocates sizeof(T) + capacity_used(source); capacity_used contains the alignment
     # padding of the SOURCE block.  With pieces aligned stricter than alignof(T) (16 > 8) and a new block
     # whose address has another residue modulo 16 the copy needs more padding and clone_joint throws
@@ -381,12 +381,21 @@ def jobs_c20(prop, tier, seed):
 
 
 def jobs_c11(prop, tier, seed):
-    return _jobs(prop, tier, seed, ["rel", "base", "dbg"], [sc_fit, sc_raw, sc_orders, sc_joint_create],
-                 150 if tier == "quick" else 400)
+    J = _jobs(prop, tier, seed, ["rel", "base", "dbg"], [sc_fit, sc_raw, sc_orders, sc_joint_create],
+              150 if tier == "quick" else 400)
+    J.append(Job("base", DRV[0], DRV[1], known_finding_execs(), "known"))
+    return J
 
 
 _RULE = ("scenario scripts per helper / constructor form / element type / allocator and every throw position k "
          "(vlib/plans_construct.py); an execution counts as non-trivial if at least one helper call returned ok")
+
+def known_finding_execs():
+    """dedicated reproducers of the listed open findings F22 / F23 (clone_joint under-sizes the copy): shown
+    against the real code on every run; matched by the kf= tag in known_findings.json"""
+    return [({"alloc": "leaf", "et": "e16", "skew": "10", "kf": "F22"}, ["joint 1 0 0 0 2", "clone 0 0"]),
+            ({"alloc": "leaf", "et": "e4", "skew": "0", "kf": "F23"}, ["joint 1 0 0 -1 0 0 3 3 0", "clone 0 0"])]
+
 
 PROPS = {
     "C20": {"jobs": jobs_c20, "rule": _RULE},
